@@ -9,6 +9,7 @@ import (
 	"os"
 	"path/filepath"
 	"runtime"
+	"runtime/debug"
 	"strings"
 	"sync"
 	"time"
@@ -688,6 +689,8 @@ type c12Recorder struct {
 	recs    []*c12RecObs
 	unknown int
 	chunks  [][]byte // per output: concatenated chunk data
+	// Parse calls that created a new struct although the previous Parse call had just released one (same goroutine)
+	notReleased int
 }
 
 type c12Ser struct {
@@ -806,6 +809,7 @@ func c12Long(pc *c12Pipe, yaml string) (*c12Recorder, *c12Pipeline, error) {
 	worker := bsupport.NewLogProcessingWorker(logger.Root(), ch, p.alloc, p.procCounter, p.transforms, outs)
 	worker.Start()
 	idx := 0
+	prevNil := false
 	for bi, bsz := range pc.Batches {
 		var batch []*base.LogRecord
 		var members []int
@@ -818,7 +822,12 @@ func c12Long(pc *c12Pipe, yaml string) (*c12Recorder, *c12Pipeline, error) {
 			rec.Unlock()
 			// the parser may keep the input slice only during the call: hand it a scratch copy that is overwritten afterwards
 			scratch := append([]byte(nil), pc.Inputs[i]...)
+			newsBefore := p.stats.newStructs
 			r := p.parser.Parse(scratch, time.Unix(pc.TS[i], 0))
+			if prevNil && p.stats.newStructs != newsBefore {
+				rec.notReleased++
+			}
+			prevNil = r == nil
 			for x := range scratch {
 				scratch[x] = '#'
 			}
@@ -932,6 +941,14 @@ func c12RunPipeline(c *Case) (out string, fails []Fail) {
 	}
 	logger.SetLogLevel(logger.FatalLevel)
 	defer c12SetKnobs(pc)()
+	if pc.GC == 0 {
+		oldGC := debug.SetGCPercent(-1)
+		defer debug.SetGCPercent(oldGC)
+		// Parse runs on this goroutine, Release on the worker's: with several Ps a released object mostly sits in the
+		// other P's private slot and is not found again. One P makes sync.Pool hand recycled objects back at once.
+		old := runtime.GOMAXPROCS(1)
+		defer runtime.GOMAXPROCS(old)
+	}
 	yaml := pc.yaml(c12AllOuts(pc.NOut))
 	long, lp, err := c12Long(pc, yaml)
 	if err != nil {
@@ -984,6 +1001,11 @@ func c12RunPipeline(c *Case) (out string, fails []Fail) {
 		if len(fails) > 3 {
 			break
 		}
+	}
+	// ----- a record the parser gives up (malformed, dropped by an extraction) is released inside Parse: with one output,
+	// one P and no garbage collection the very next NewRecord on this goroutine must get that struct back -----
+	if pc.GC == 0 && pc.NOut == 1 && long.notReleased > 0 {
+		fails = append(fails, Fail{"c12:nil-parse-not-released", fmt.Sprintf("%d records that Parse rejected were not returned to the pool: %s", long.notReleased, ctx)})
 	}
 	// ----- reference counts (refcount_balanced) -----
 	for i, lo := range long.recs {
